@@ -9,6 +9,7 @@ obs:   one token per op   <val>/<ran>/<written>/<pieces>
          val = rc:<status>:<text> | out:<text> | b0 | b1 | err:<tag>
          ran = `;`-joined  a:<word,…> | q | h:<line>      (`.` = nothing dispatched)
 """
+import random, zlib
 import vclock
 vclock.install()
 import tbot  # noqa: E402
@@ -134,6 +135,10 @@ def run_case(line: str) -> str:
         if io.segs:
             return "init-left-data/" + hx(io.pending())
         io.cuts = list(cuts)
+        h = zlib.crc32(line.encode())
+        if h % 2 == 1:
+            wr = random.Random(h)
+            io.wmax = lambda: wr.choice([1, 3, 16, 64, 511, 4096])
         for op in ops:
             io.pieces = []
             io.tx = bytearray()
